@@ -440,3 +440,27 @@ M2('c05-set-header-stringified-after-store', 'C05', 'R12', [
     {'file': RSP, 'old': "        # to US-ASCII.\n        value = str(value)\n", 'new': "        # to US-ASCII.\n", 'count': 2, 'occurrence': 0},
     {'file': RSP, 'old': "        self._headers[name] = value\n\n    def delete_header", 'new': "        self._headers[name] = value\n        value = str(value)\n\n    def delete_header"}],
    also=('C15',))
+
+# R7 payload precedence data > text > json of an SSE event (wave 9: s9-c05-2)
+SSEV = 'falcon/asgi/structures.py'
+_SSE_TEXT_ARM = "        elif self.text is not None:\n            block += f'data: {self.text}\\n'\n"
+M2('c05-sse-text-tested-before-data', 'C05', 'R7', [
+    {'file': SSEV, 'old': _SSE_TEXT_ARM, 'new': ""},
+    {'file': SSEV, 'old': "        if self.data is not None:\n",
+     'new': "        if self.text is not None:\n            block += f'data: {self.text}\\n'\n        elif self.data is not None:\n"}])
+M('c05-sse-text-arm-not-exclusive', 'C05', 'R7', SSEV, "        elif self.text is not None:\n", "        if self.text is not None:\n")
+M('c05-sse-text-by-truthiness', 'C05', 'R7', SSEV, "        elif self.text is not None:\n", "        elif self.text:\n")
+M('c05-sse-json-by-truthiness', 'C05', 'R7', SSEV, "        elif self.json is not None:\n", "        elif self.json:\n")
+M('c05-sse-json-arm-unconditional', 'C05', 'R7', SSEV, "        elif self.json is not None:\n", "        else:\n")
+
+# R13 SSEvent.__init__ rejects only wrongly typed arguments (wave 9: s9-c05-3)
+_SSE_RETRY = "        if retry is not None and not isinstance(retry, int):\n            raise TypeError('retry must be an int')\n"
+M('c05-sse-ctor-rejects-nonpositive-retry', 'C05', 'R13', SSEV, _SSE_RETRY,
+  _SSE_RETRY + "\n        if retry is not None and retry <= 0:\n            raise ValueError('retry must be a positive number of milliseconds')\n")
+M('c05-sse-ctor-asserts-positive-retry', 'C05', 'R13', SSEV, _SSE_RETRY, _SSE_RETRY + "        assert retry is None or retry > 0\n")
+M('c05-sse-ctor-rejects-bool-retry', 'C05', 'R13', SSEV, _SSE_RETRY,
+  "        if retry is not None and (isinstance(retry, bool) or not isinstance(retry, int)):\n            raise TypeError('retry must be an int')\n")
+M('c05-sse-ctor-rejects-missing-event-name', 'C05', 'R13', SSEV, "        if event is not None and not isinstance(event, str):\n",
+  "        if not event or not isinstance(event, str):\n")
+M('c05-sse-ctor-rejects-multiline-comment', 'C05', 'R13', SSEV, "        if comment is not None and not isinstance(comment, str):\n            raise TypeError('comment must be a string')\n",
+  "        if comment is not None and not isinstance(comment, str):\n            raise TypeError('comment must be a string')\n        if comment is not None and '\\n' in comment:\n            raise ValueError('comment must be a single line')\n")
